@@ -13,6 +13,9 @@ if os.environ.get("PYTHONHASHSEED") != "0" or os.environ.get("PYTHONDONTWRITEBYT
     env = dict(os.environ, PYTHONHASHSEED="0", PYTHONDONTWRITEBYTECODE="1")
     os.execve(sys.executable, [sys.executable] + sys.argv, env)
 sys.dont_write_bytecode = True
+if os.environ.get("VERIF_REPO"):
+    # trying a seeded change in a scratch worktree: import the library from there (default: /repo)
+    sys.path.insert(0, os.path.realpath(os.environ["VERIF_REPO"]))
 HERE = os.path.dirname(os.path.abspath(__file__))
 sys.path.insert(0, HERE)
 os.chdir(HERE)
